@@ -256,6 +256,18 @@ def r_respawn_guard(e, R):
                 return "P"
         if isinstance(x, ast.Attribute) and x.attr == e.anchors.max_workers_attr:
             return "M"
+        if isinstance(x, ast.Attribute) and isinstance(x.value, ast.Name) and f.params and x.value.id == f.params[0] and f.cls is not None:
+            # a field of the manager itself that its constructor copied from the executor's pool size: the executor's field is a plain int
+            # that a resize REBINDS, so the copy goes stale (unlike the shared containers / locks the manager also keeps)
+            init_ = f.cls.methods.get("__init__")
+            copied = [n for n in func_nodes(init_) if isinstance(n, ast.Assign) and isinstance(n.targets[0], ast.Attribute) and n.targets[0].attr == x.attr
+                      and isinstance(n.value, ast.Attribute) and n.value.attr == e.anchors.max_workers_attr] if init_ is not None else []
+            if copied:
+                R.fail("R-RESPAWN-GUARD", f.short, norm(x), f"the respawn guard reads `{norm(x)}`, a copy of the executor's `{e.anchors.max_workers_attr}` taken when the manager "
+                       "thread was created; the reusable executor's resize rebinds that field on the executor, and the manager thread outlives every resize: after a "
+                       "resize up the manager still believes the old size and does not replace a worker that timed out, so fewer than max_workers tasks run "
+                       "together", e.loc(f, x))
+                return "M"
         if isinstance(x, ast.Call) and _is_weakref_deref(e, f, x):
             return "E"
         if isinstance(x, ast.Name) and _is_weakref_deref(e, f, x):
